@@ -2,6 +2,7 @@
 Model of internal/discovery: list sources, regex filter, dedup, shuffle.
 -/
 import DtailModel.Model.Basic
+set_option autoImplicit true  -- the type variable α of the generic list functions below is bound implicitly
 namespace Dtail
 
 def COMMA : UInt8 := 44
